@@ -19,7 +19,7 @@ func init() {
 		Title: "Marshal-test helpers report exactly the failing cases",
 		Run:   runC20,
 		Explanation: "One rule set applied uniformly to the six sibling helpers of package test (cross-check by uniform obligations over SSA, not by text equality): " +
-			"C20.iface: the value is tested against the interface whose method carries the helper's name, in front of the direction filter and for every case (T may be an interface type: each case has its own dynamic type); failure calls assert.FailNow(f) with the helper's t and returns. " +
+			"C20.iface: the value is tested against the interface whose method carries the helper's name, behind the direction filter (other-direction cases are ignored) and for every applicable case (T may be an interface type: each case has its own dynamic type); failure calls assert.FailNow(f) with the helper's t and returns. " +
 			"C20.dir: the helper filters with the direction predicate of its own direction, applied to the case's Constraint, the false edge skipping the case; isForMarshal/isForUnmarshal are c==0 ∨ c==Only<own> (table over the constraint values). " +
 			"C20.hooks: Before precedes and After follows the marshal call, both through callForCase, both results asserted with NoError, a failure skips the case; no path from the marshal call to the next case avoids the After hook; the Before hook sits behind the direction filter; both hooks receive the address of the variable the case's Data/Value/Error are read from. C20.support: helperNew allocates a fresh target exactly when helper == nil and T is a pointer type (decision by the type only), otherwise helper.New(value); helperAssertEmpty/Equal assert on t with the values in order, or delegate to the TypeHelper; castToFunc makes both interface probes on its parameter (any(value), any(&value)), not on a zero T. " +
 			"C20.safe: the user's Marshal*/Unmarshal* method is invoked only inside a function with a deferred recover whose result is turned into the returned error; callForCase protects the hooks the same way. " +
@@ -383,7 +383,9 @@ func ruleC20Helper(e *Env, h helperSpec) {
 				e.S.Ok("C20.iface", site, "every case", "the interface test is made for every case", e.posOf(ifaceTest))
 			}
 		}
-		// the test must run on the first case whatever its constraint: it may not sit behind the direction filter
+		// "a type lacking the interface" is a reason why an APPLICABLE case is not satisfied; cases restricted to the
+		// other direction are ignored: the test follows the direction filter (and, see "every case", is made for
+		// each applicable case, so no applicable case reaches the conversion untested)
 		behind := false
 		for _, call := range e.C.Calls(fn, flow.InRepo) {
 			if n := e.C.StaticCallee(&call.Call).Name(); n == "isForMarshal" || n == "isForUnmarshal" {
@@ -405,12 +407,12 @@ func ruleC20Helper(e *Env, h helperSpec) {
 		switch {
 		case !okIface:
 			e.S.Bad("C20.iface", site, "missing interface", why, pos, "")
-		case behind:
-			e.S.Bad("C20.iface", site, "missing interface", "the interface test sits behind the direction filter: when the first case is restricted to the other direction the type is never checked (and the cast function stays nil)", pos, "first case OnlyMarshal/OnlyUnmarshal")
+		case !behind:
+			e.S.Bad("C20.iface", site, "missing interface", "the interface test runs in front of the direction filter: a case restricted to the other direction is tested too, so a table without any applicable case is reported, and a satisfied one is cut short by an other-direction case", pos, "every case OnlyUnmarshal, type without MarshalText")
 		case !ifaceOK:
-			e.S.Bad("C20.iface", site, "missing interface", "the interface tested on the first case does not declare "+h.name, pos, "")
+			e.S.Bad("C20.iface", site, "missing interface", "the interface tested does not declare "+h.name, pos, "")
 		default:
-			e.S.Ok("C20.iface", site, "missing interface", "first case: value tested for the interface declaring "+h.name+"; on failure FailNow on t and return", pos)
+			e.S.Ok("C20.iface", site, "missing interface", "applicable cases: value tested for the interface declaring "+h.name+"; on failure FailNow on t and return", pos)
 		}
 	}
 	// ---- C20.dir
